@@ -86,6 +86,20 @@ def systematic(rng, tier):
 				for kind, head in (('server', b'POST / HTTP/1.1\r\nHost: h\r\n'), ('client', b'HTTP/1.1 200 OK\r\n')):
 					s = head + b'Content-Encoding: ' + coding + b'\r\n' + (b'Content-Type: ' + ct + b'\r\n' if ct else b'') + b'Content-Length: %d\r\n\r\n' % len(body) + body
 					out.append({'k': 'hostile', 'kind': kind, 's': s.hex(), 'cuts': [[]]})
+	# every charset name the code may accept (KNOWN_ENCODINGS as the tree has it now), every codec name Python knows
+	# (text or not: uu, hex, rot13, zlib ... are codecs that bytes.decode() refuses with LookupError), as the charset
+	# of an encoded word in a field the parser reads and of an RFC 5987 extended parameter
+	import encodings.aliases
+	from httoop import util as _util
+	names = sorted(set(getattr(_util, 'KNOWN_ENCODINGS', ())) | set(encodings.aliases.aliases.values()) | {'utf-8-sig', 'idna', 'punycode', 'unicode_escape', 'raw_unicode_escape', 'undefined', 'mbcs', 'oem', 'x', ''})
+	for name in names:
+		nm = name.encode('ascii')
+		for c, payload in ((b'q', b'abc=FF=00'), (b'b', b'YWJj/w==')):
+			word = b'=?' + nm + b'?' + c + b'?' + payload + b'?='
+			out.append({'k': 'hostile', 'kind': 'server', 's': (b'POST / HTTP/1.1\r\nHost: h\r\nTransfer-Encoding: ' + word + b'\r\n\r\n').hex(), 'cuts': [[]]})
+			out.append({'k': 'hostile', 'kind': 'client', 's': (b'HTTP/1.1 200 OK\r\nContent-Length: ' + word + b'\r\n\r\n').hex(), 'cuts': [[]]})
+		out.append({'k': 'hostile', 'kind': 'server', 's': (b'POST / HTTP/1.1\r\nHost: h\r\nContent-Type: a/b; n*=' + nm + b"''a%ff%00\r\n\r\n").hex(), 'cuts': [[]]})
+		out.append({'k': 'hostile', 'kind': 'server', 's': (b'POST / HTTP/1.1\r\nHost: =?' + nm + b'?q?h?=\r\n\r\n').hex(), 'cuts': [[]]})
 	for le in (b'\n', b'\r', b'\r\r\n', b'\n\r', b'\r\n'):
 		for kind, head in (('server', b'POST / HTTP/1.1\r\nHost: h\r\nTransfer-Encoding: chunked\r\n\r\n'), ('client', b'HTTP/1.1 200 OK\r\nTransfer-Encoding: chunked\r\n\r\n')):
 			for body in (b'5;e=1' + le + b'hello' + le + b'0' + le + le, b'5\r\nhello\r\n0' + le + b'A: b' + le + le, b'5' + le + b'hello\r\n0\r\n\r\n'):
